@@ -5,6 +5,7 @@ import callees
 import callgraph
 import fieldclass
 import ir
+import re
 import symex
 from infra import BAD_FIXTURE, Report, Sink, loc
 from ir import short
@@ -203,6 +204,27 @@ def k4_display(F, S, s, c):
         if p["arg"] != i:
             S.bad("K4", "display-arg-order", "%s:%d" % (s, i), "placeholder %d of %s's Display refers to argument %s" % (i, s, p["arg"]), where)
             return
+    # the Formatter is written exactly once, by that format_args!: nothing else in fmt (or in a crate function it hands the
+    # formatter to) may receive it — `let _ = f.write_str("~")` changes the text without touching the returned Result
+    import callees as _cal
+    sinks = []
+    todo, seen_ = [fn] + [g_ for g_ in F.fns if g_.kind == "Closure" and g_.path.startswith(fn.path)], set()
+    while todo:
+        g = todo.pop()
+        if g.path in seen_:
+            continue
+        seen_.add(g.path)
+        for b_, t_ in g.calls():
+            if not any("Formatter" in ((a_.get("place") or {}).get("ty") or "") for a_ in t_["args"]):
+                continue
+            tgt = F.fn_by_path.get(t_["callee"].get("resolved") or t_["callee"].get("path"))
+            if tgt is not None and (t_["callee"].get("local") or t_["callee"].get("resolved_local")):
+                todo.append(tgt)
+            else:
+                sinks.append(_cal.strip_all_turbofish(_cal.callee_name(t_["callee"])))
+    if len(sinks) != 1 or not re.search(r"fmt::Formatter(<[^>]*>)?::write_fmt$", sinks[0]):
+        S.bad("K4", "display-extra-write", s, "Display of %s hands its Formatter to %s; the documented text is one write of the format string and nothing else" % (s, ", ".join(sinks) or "nothing"), where)
+        return
     # resolve the arguments in MIR
     r = symex.evaluate(F, fn, symex.Policy(F, modular=False))
     # the text must be written unconditionally: one path, ending in the formatter's own result (no early `return Ok(())`, no `Err`)
